@@ -104,12 +104,20 @@ Theorem compare_matches_wire_order :
 Proof. exact (conj comp_cmp_wire name_cmp_wire). Qed.
 Print Assumptions compare_matches_wire_order.
 
-(* Structural remark, not a violation (the statement asks only equal names => equal hashes): component boundaries
-   are not delimited in the hash input, so two different well-formed names feed the same bytes to the hasher. *)
-Theorem hash_input_not_injective : exists a b : name,
-  a <> b /\ Forall comp_wf a /\ Forall comp_wf b /\ name_hash_input a = name_hash_input b.
-Proof. exact Wire.hash_input_not_injective. Qed.
-Print Assumptions hash_input_not_injective.
+(* The bytes fed to the hasher determine the name (type, value length, value per component): equal hashes of
+   different names can only come from the 64-bit hash function itself, never from the input construction. *)
+Theorem hash_input_injective : forall a b : name, Forall comp_wf a -> Forall comp_wf b ->
+  name_hash_input a = name_hash_input b -> a = b.
+Proof. exact name_hash_input_inj. Qed.
+Print Assumptions hash_input_injective.
+
+(* The value length in the hash input is needed: the input used before the /repo fix (type then raw value) is the same
+   for /%00%00%00%00%00%00%00%08 and // — on the real code the Content Store then answered an Interest for the first
+   name with the Data of the second (docs/C14.md, corpus/C14). *)
+Theorem hash_input_without_length_refuted : exists a b : name,
+  a <> b /\ Forall comp_wf a /\ Forall comp_wf b /\ name_hash_input_nolen a = name_hash_input_nolen b.
+Proof. exact hash_input_nolen_not_injective. Qed.
+Print Assumptions hash_input_without_length_refuted.
 
 (* The decidable oracle predicates that the runner evaluates on the implementation's observations (Spec.v) are
    satisfied by the model's own answers: an oracle failure is therefore a genuine failure of the property on the
